@@ -2,8 +2,12 @@
 //! Usage: wire <command> [args...]; see each module.
 mod codec;
 mod depth;
+mod fuzz;
 mod gen;
 mod model;
+
+#[global_allocator]
+static ALLOC: fuzz::Counting = fuzz::Counting;
 
 fn main() {
     // panics inside the code under test are data: keep them quiet, they are reported per case
@@ -16,6 +20,8 @@ fn main() {
         "rand-enc" => codec::cmd_rand_enc(rest),
         "rand-dec" => codec::cmd_rand_dec(rest),
         "obs-depth" => depth::cmd_obs_depth(rest),
+        "fuzz-work" => fuzz::cmd_fuzz_work(rest),
+        "fuzz-one" => fuzz::cmd_fuzz_one(rest),
         other => {
             eprintln!("unknown command {other}");
             std::process::exit(2);
